@@ -9,7 +9,10 @@ for every property that lists it.
 
 # a function that can panic returns no value: arithmetic overflow / failed internal precondition inside a function
 # under contract refutes its functional property as well as C03
-FUNCTIONAL = ('post', 'std-post', 'assert', 'lemma-pre', 'other', 'overflow', 'divzero', 'pre', 'std-pre')
+# ... and so does a failed type invariant or a failed precondition of an *_unchecked constructor: Verus goes on ASSUMING the
+# failed condition, so a body that builds a wrong (out-of-range) value in some case shows only that one error, and the
+# postcondition is then proved for the remaining cases only
+FUNCTIONAL = ('post', 'std-post', 'assert', 'lemma-pre', 'other', 'overflow', 'divzero', 'pre', 'std-pre', 'type-inv', 'unchecked-pre')
 PANIC = ('overflow', 'divzero', 'pre', 'std-pre')
 RANGE = ('type-inv', 'unchecked-pre')
 
@@ -130,7 +133,13 @@ PROPS = {
         'verus': [r'^laws :: fn law_c17_',
                   r'^(timestamp|oracle) :: impl (Trunc|Round) for (Timestamp|Date) / fn ',
                   r' :: impl Partial(Eq|Ord)<(Date|Timestamp|SqlDate)> for (Date|Timestamp|SqlDate) / fn ',
-                  r'^timestamp :: impl From<Date> for Timestamp / fn from$', r'^oracle :: impl From<(Date|Timestamp)> for (Date|Timestamp) / fn from$'],
+                  r'^timestamp :: impl From<Date> for Timestamp / fn from$', r'^oracle :: impl From<(Date|Timestamp)> for (Date|Timestamp) / fn from$',
+                  # the agreement laws are proved over the contracts of the operations the three types share: each of those
+                  # functions has to meet its contract for the agreement to mean anything
+                  r'^(date|timestamp|oracle) :: impl (Date|Timestamp) / fn (last_day_of_month|add_interval_ym|sub_interval_ym|add_interval_ym_internal|'
+                  r'add_interval_dt|sub_interval_dt|add_time|sub_time|sub_date|sub_timestamp|and_zero_time|date|time)$',
+                  r'^date :: impl (Trunc|Round) for Date / fn ',
+                  r'^(date|timestamp|oracle) :: impl DateTime for (Date|Timestamp) / fn '],
         'kinds': FUNCTIONAL,
     },
     'C18': {'verus': [], 'kinds': FUNCTIONAL},
